@@ -65,6 +65,9 @@ func (m *Type) Clone(reuse *Type) *Type {
 	var newStack []value.Type
 
 	verifClone(reuse)
+	// the clone pushes its own closure frames, it must not share spare capacity with m
+	closure := m.closure[:len(m.closure):len(m.closure)]
+
 	if len(m.fp) < 2 {
 		newStackSize = minStackSize
 	} else {
@@ -89,7 +92,7 @@ func (m *Type) Clone(reuse *Type) *Type {
 	}
 
 	if len(m.fp) < 2 {
-		return &Type{sp: 0, fp: newFP, global: m.global, closure: m.closure, stack: newStack}
+		return &Type{sp: 0, fp: newFP, global: m.global, closure: closure, stack: newStack}
 	}
 
 	fp := m.fp[len(m.fp)+localFP]
@@ -102,12 +105,12 @@ func (m *Type) Clone(reuse *Type) *Type {
 		reuse.sp = m.sp - fp
 		reuse.fp = newFP
 		reuse.global = m.global
-		reuse.closure = m.closure
+		reuse.closure = closure
 		reuse.stack = newStack
 		return reuse
 	}
 
-	return &Type{sp: m.sp - fp, fp: newFP, global: m.global, closure: m.closure, stack: newStack}
+	return &Type{sp: m.sp - fp, fp: newFP, global: m.global, closure: closure, stack: newStack}
 }
 
 // CallDepth is the number of call frames.
